@@ -26,7 +26,7 @@ CLAIMED = {
          "in a loop that ends only when the requested size is accumulated, asks for the remaining count and consumes buffered bytes first; "
          "M4 the line reader's loop has 'delimiter found' as only normal exit and splits the buffer exactly at the delimiter; M5 literal sizes "
          "reach the block reader unchanged from a digits-only pattern group. Substantially decides the property given the trusted model of socket.recv.",
-    technique="effect ownership (who-may-call / who-may-write) + CFG cycle and exit classification + regex group analysis",
+    technique="finite-domain interpretation of the response assembler and the readers over reply streams x segmentations (scripted recv) vs fixed RFC readings + effect ownership (who-may-call / who-may-write) + CFG cycle and exit classification + regex group analysis (structural reader rules are notices when the interpretation followed the readers)",
     ref="4/C05"),
  "C09": dict(
     text="Q1: path-sensitive constant propagation of each of the Client's reply-consuming functions over code in {OK, NO}: OK reaches only success "
@@ -35,7 +35,7 @@ CLAIMED = {
          "proved optional is used as bytes without a None test (followed into the error parser); Q4: the RFC 5804 language of NO-reply tails is "
          "included in what the error parser accepts before it may raise and errcode/errmsg are both set on every path; Q5: only the error parser "
          "writes errcode/errmsg from server data. Necessary conditions; the suite contains no NO or BYE reply at all.",
-    technique="finite-domain path enumeration + regex language inclusion (DFA) + nullable-group analysis + CFG dominance",
+    technique="finite-domain path enumeration + regex language inclusion (DFA) + nullable-group analysis + CFG dominance + the reader interpretation of C05 (M7)",
     ref="4/C09"),
  "C08": dict(
     text="W1 sendall is called only by the command sender, every line ends in CRLF and the argument list reaches the wire only through the "
@@ -52,7 +52,7 @@ CLAIMED = {
          "assembler/error parser; K2 each public operation sends at most one command per path (finite-domain enumeration); K3 nobody else touches "
          "socket or buffer (M1, M2, W1); K4 a line is removed from the buffer where it is taken for interpretation. Agreement of the reported "
          "state with a reference server over histories is NOT decided.",
-    technique="CFG dominance / cycle queries on the sender, intra-class call-graph ownership, finite-domain path enumeration",
+    technique="CFG dominance / cycle queries on the sender, intra-class call-graph ownership, finite-domain path enumeration, the reader interpretation of C05 (M7) over back-to-back replies",
     ref="4/C15"),
  "C14": dict(
     text="Dominance facts over the emulated branch of renamescript that hold for every server behaviour at every step: R1 delete(old) only on the "
@@ -90,7 +90,7 @@ CLAIMED = {
          "non-raising by error policy, or under the funnel catching UnicodeDecodeError; X6/X7 integer and constant-key subscripts are guarded; X8 "
          "registry names producible by the lookup scheme are concrete commands or rejected; X9-X11 format arity, state-slot call, verdict shape; "
          "L7 no polynomial-backtracking regex shape. Not covered: None current command typestate, resource errors.",
-    technique="regex width/backtracking analysis + CFG cycle/dominance queries + call-graph raise closure + guarded-subscript dataflow",
+    technique="regex width/backtracking analysis + CFG cycle/dominance queries + call-graph raise closure + guarded-subscript dataflow + finite-domain interpretation of the lexer over sample texts (line bound, progress)",
     ref="4/C02"),
  "C07": dict(
     text="The gating argument decided structurally: E1 all 39 construct->extension bindings of a frozen reference (12 commands, 6 tags, 3 match-type "
